@@ -163,6 +163,21 @@ class Ctx:
             self.determinism(fname, cases[:det], first)
         return len(cases)
 
+    def run_level(self, fname, cases, det=6):
+        """pmap + absorb; returns [(case, res)] and replays the first `det` cases."""
+        cases = list(cases)
+        want = {json.dumps(c, sort_keys=True, default=str) for c in cases[:det]}
+        first, out = {}, []
+        for case, res in self.pmap(fname, cases):
+            self.absorb(case, res)
+            out.append((case, res))
+            k = json.dumps(case, sort_keys=True, default=str)
+            if k in want:
+                first[k] = res
+        if det:
+            self.determinism(fname, cases[:det], first)
+        return out
+
     def determinism(self, fname, cases, first):
         """Replay cases once more; observations must be identical."""
         for case, res in self.pmap(fname, cases, 1):
